@@ -239,7 +239,24 @@ class Folder:
             raise Unfoldable("compare")
         if isinstance(e, ast.Tuple):
             return tuple(self.fold(x, module, env, self_cls) for x in e.elts)
+        if isinstance(e, ast.Dict) and all(k is not None for k in e.keys):
+            return {self._key(self.fold(k, module, env, self_cls)): self.fold(v, module, env, self_cls) for k, v in zip(e.keys, e.values)}
+        if isinstance(e, ast.Subscript):
+            base = self.fold(e.value, module, env, self_cls)
+            idx = self.fold(e.slice, module, env, self_cls)
+            if isinstance(base, dict):
+                k = self._key(idx)
+                if k in base:
+                    return base[k]
+                raise Unfoldable(f"key {idx!r} not in the table")
+            if isinstance(base, (tuple, str, bytes)) and isinstance(idx, int) and not isinstance(idx, bool) and -len(base) <= idx < len(base):
+                return base[idx]
+            raise Unfoldable("subscript")
         raise Unfoldable(f"expression {type(e).__name__}: {norm(e)[:60]}")
+
+    @staticmethod
+    def _key(v: Any) -> Any:
+        return ("enum", v.cls, v.member) if isinstance(v, EnumConst) else v
 
     def fold_function_call(self, fi, call: ast.Call, module: str, env, self_cls) -> Any:
         """Fold a call to a small pure helper whose body is `return <expr>` (after an optional docstring)."""
